@@ -156,11 +156,20 @@ func (w *Worker) push(st *State) {
 	w.local = append(w.local, st)
 }
 
+func (e *Engine) isStopped() bool {
+	e.qmu.Lock()
+	defer e.qmu.Unlock()
+	return e.stopped
+}
+
 func (w *Worker) loop() {
 	e := w.e
 	holding := false
 	for {
 		var st *State
+		if e.isStopped() {
+			w.local = nil
+		}
 		if n := len(w.local); n > 0 {
 			st = w.local[n-1]
 			w.local = w.local[:n-1]
@@ -300,6 +309,18 @@ func (w *Worker) symsOf(st *State) []*Term { return st.syms }
 func (w *Worker) check(st *State, c *Term) (string, Model) {
 	if w.sol == nil {
 		panic(cutErr{"symbolic condition in concrete mode"})
+	}
+	if e := w.e; w.subDepth == 0 && (e.isStopped() || (!e.cfg.Deadline.IsZero() && time.Now().After(e.cfg.Deadline))) {
+		e.res.mu.Lock()
+		if !e.res.PathCap {
+			e.res.Timeout = true
+		}
+		e.res.mu.Unlock()
+		e.qmu.Lock()
+		e.stopped = true
+		e.qcond.Broadcast()
+		e.qmu.Unlock()
+		panic(cutErr{"INFEASIBLE"}) // abandon silently; the harness is marked as timed out
 	}
 	return w.sol.Check(st.pc.Slice(), c, st.syms)
 }
